@@ -66,3 +66,20 @@ def exc_kind(e):
              'P8IncludeOutsideOfAllowedDirectory': 'outside-root', 'P8IncludeNotFound': 'not-found',
              'LuaBuildError': 'build', 'InvalidP8PNGError': 'too-large'}
     return table.get(name, name)
+
+
+class quiet:
+    """Silence picotool's own message streams (bound to sys.stdout/stderr at import time)."""
+
+    def __enter__(self):
+        from pico8 import util
+        import io as _io
+        self.util = util
+        self.saved = (util._write_stream, util._error_stream)
+        util._write_stream = _io.StringIO()
+        util._error_stream = _io.StringIO()
+        return self
+
+    def __exit__(self, *a):
+        self.util._write_stream, self.util._error_stream = self.saved
+        return False
